@@ -694,6 +694,9 @@ pub fn run_case(line: &str) -> String {
                 fl.push(show(sink.flush().map(|_| 0)));
                 thread::sleep(Duration::from_millis(1));
             }
+            // the figures again after the two explicit flushes (a refused explicit flush is one refused send, once)
+            let st2 = sink.stats();
+            let att2 = if t[1] == "u" { n as u64 } else { attempts.load(Ordering::SeqCst) };
             drop(sink);
             cadence::verif::uninstall();
             let mut got = vec![];
@@ -704,12 +707,14 @@ pub fn run_case(line: &str) -> String {
                 fl.push("norebind".to_string());
             }
             format!(
-                "R:{}|F:{}|D:{}|S:{}|A:{}",
+                "R:{}|F:{}|D:{}|S:{}|A:{}|S2:{}|A2:{}",
                 res.join(","),
                 fl.join(","),
                 got.iter().map(|d| hex(d)).collect::<Vec<_>>().join(";"),
                 stats_str(&st),
-                att
+                att,
+                stats_str(&st2),
+                att2
             )
         }
         "UC" => {
